@@ -139,8 +139,8 @@ def gen_query(rng, tier):
         T -= 1
     allnodes = [(v, t) for v in range(k) for t in range(T + 1)]
     q = rng.sample(allnodes, rng.randint(1, min(2, len(allnodes))))
-    if not any(t == T for _, t in q):
-        q[0] = (q[0][0], T)
+    if not any(t == T for _, t in q) and rng.random() < .6:
+        q[0] = (q[0][0], T)          # (otherwise: smoothing - the query lies before the last observed slice)
     rest = [x for x in allnodes if x not in q]
     ev = rng.sample(rest, min(len(rest), rng.choice([0, 0, 1, 2, 3, 4])))
     tm["T"] = T
@@ -148,6 +148,7 @@ def gen_query(rng, tier):
     tm["ev"] = [[v, t, rng.randrange(tm["card"][v])] for v, t in ev]
     tm["mode"] = rng.choice(["query", "query", "forward"])
     tm["direct"] = rng.random() < .35      # mode "query": call backward_inference itself instead of the query() front end
+    tm["reuse_ev"] = rng.random() < .3
     return tm
 
 
@@ -164,12 +165,21 @@ def dbn_outcome(case, cls):
         inf = cls(dbn)
         variables = [(VN[v], t) for v, t in case["q"]]
         evidence = {(VN[v], t): ev_state(case, v, s) for v, t, s in case["ev"]} or None
+        ev_before = dict(evidence) if evidence else evidence
+        if case.get("reuse_ev") and evidence:
+            # the caller's evidence dict has been used for a filtering call on the same engine before: it is an input, and still complete
+            try:
+                inf.forward_inference(variables, evidence)
+            except Exception:
+                pass
         if case["mode"] == "forward":
             res = inf.forward_inference(variables, evidence)
         elif case.get("direct"):
             res = inf.backward_inference(variables, evidence)
         else:
             res = inf.query(variables, evidence)
+        if evidence != ev_before:
+            return ("exc", "EvidenceModified", f"the caller's evidence dict was changed: {ev_before} -> {evidence}"), None, None
     except Exception as e:
         return ("exc", type(e).__name__, _sig(str(e))), None, None
     try:
